@@ -516,6 +516,34 @@ def library_traces(ck, qr, numpy):
                      dict(program=str(prog)[:300], event_index=rej["l"],
                           event=ev, state=rej["state"][:600]),
                      dict(program=str(prog)))
+    # the repository's own unit tests under the tracer
+    from harness import repotests
+    tr2 = BasisTracer()
+    tr2.install()
+    try:
+        ttraces, tlabels, tskip = repotests.run_under(tr2, thorough=ck.thorough)
+    finally:
+        tr2.uninstall()
+    for lab, t in zip(tlabels, ttraces):
+        ck.case("repo-test-trace", lab, nontrivial=len(t) >= 2,
+                sample=dict(test=lab, events=len(t)))
+    if tskip:
+        ck.note("%d repository tests touch more than 60 managed objects and "
+                "were not validated" % tskip)
+    if len(ttraces) < 5:
+        raise MachineryFailure("only %d repository tests produced basis "
+                               "events" % len(ttraces))
+    rej = ck.validate_traces("BasisTrace", "BasisTrace.cfg", ttraces,
+                             workers=8)
+    if rej:
+        t = ttraces[rej["tid"] - 1]
+        ev = t[min(rej["l"], len(t)) - 1]
+        ck.violation("repo-test-" + str(rej["violated"]),
+                     "testtrace:%s:%s" % (rej["violated"], ev.get("ev")),
+                     dict(test=tlabels[rej["tid"] - 1], event_index=rej["l"],
+                          event=ev, state=rej["state"][:600]),
+                     dict(test=tlabels[rej["tid"] - 1]))
+
     # negative control of the binding: an exit that does not restore the
     # depth must be rejected
     bad = [[dict(ev="enter", obj="o0", oldtag=0, prot=False, tag=0, depth=1,
